@@ -214,12 +214,23 @@ func (o optionsByLocation) Len() int {
 
 func (o optionsByLocation) Less(i, j int) bool {
 	if o[i].SourceLocation == nil || o[j].SourceLocation == nil {
-		return o[i].Desc.Index() < o[j].Desc.Index()
+		return o.lessByDeclaration(i, j)
 	}
 	if o[i].SourceLocation.StartLine == 0 || o[j].SourceLocation.StartLine == 0 {
-		return o[i].Desc.Index() < o[j].Desc.Index()
+		return o.lessByDeclaration(i, j)
 	}
 	return o[i].SourceLocation.StartLine < o[j].SourceLocation.StartLine
+}
+
+// lessByDeclaration orders options without a source location. Extensions
+// declared in different files can have the same index, the full name then
+// decides, so that the order never depends on the iteration order of the
+// options message.
+func (o optionsByLocation) lessByDeclaration(i, j int) bool {
+	if o[i].Desc.Index() != o[j].Desc.Index() {
+		return o[i].Desc.Index() < o[j].Desc.Index()
+	}
+	return o[i].Desc.FullName() < o[j].Desc.FullName()
 }
 
 func (o optionsByLocation) Swap(i, j int) {
